@@ -370,3 +370,10 @@ def run(report, repo):
   report.guard(c03.group_table, report, repo, 'C12-R6')
   report.guard(c03.r5_thread_proc, report, repo)
   report.guard(c09.r5_running_markers, report, repo)
+  from sa.rules import c05, c06  # pylint: disable=g-import-not-at-top
+  # a body that raised before its deadline keeps its own result (shared C05-R5)
+  report.guard(c05.r5_thread_proc, report, repo, rule='C12-R7')
+  # a TIMEOUT result is not replaced by a later validation error
+  report.rule('C12-R8', 'T-DOM: _finalize_measurements replaces the phase '
+              'result only when it is not terminal')
+  report.guard(c06.r5b_keep_terminal, report, repo, rule='C12-R8')
